@@ -5,12 +5,12 @@
 # active (they build from /repo).
 set -u
 cd /verif || exit 2
-only=${1:-}
+only=${1:-}   # optional: a regular expression on the directory name
 git -C /repo diff --quiet || { echo "/repo has uncommitted changes"; exit 2; }
 fail=0
 for d in seeded/*/; do
   id=$(basename $d)
-  [ -n "$only" ] && [[ "$id" != $only* ]] && continue
+  [ -n "$only" ] && ! [[ "$id" =~ $only ]] && continue
   # the check of the property the change was written against; if that one is known not to catch it, the checks that do
   props=$(python3 -c "import json;m=json.load(open('$d/meta.json'));t=m['breaks_property'];c=m.get('caught_by',[]);print(t if t in c else ' '.join([t]+c))")
   target=$(python3 -c "import json;print(json.load(open('$d/meta.json'))['breaks_property'])")
